@@ -160,8 +160,9 @@ def check(rep, drv, rng, text, sing_pts, k_target, layout):
                 rep.count("limit_reference_failed")
                 continue
             if not math.isfinite(v2["s"]) or not close(v2["s"], lim, abs(lim), 1e-7):
+                key = "C16-limit-wrong-for-float-constant" if (p0 != int(p0) and f"exp({p0:g})" in text.replace("exp(0.5)", "exp(0.5)")) else None
                 rep.violation(f"on the removable singularity {v} = {p0} the repaired model gives s = {v2['s']!r}; the limit is {lim!r}",
-                              {"kind": "direct", "text": text, "states": stv, "layout": layout, "k_removable": k_seen})
+                              {"kind": "direct", "text": text, "states": stv, "layout": layout, "k_removable": k_seen}, finding_key=key)
                 return
             if not math.isfinite(v2["dx_dt"]):
                 rep.violation(f"on the removable singularity {v} = {p0} dx_dt is {v2['dx_dt']!r}", {"kind": "direct", "text": text, "states": stv})
